@@ -26,6 +26,7 @@ def families(tier, seed):
     out = list()
     out.append(dict(name='C16 all ordered pairs of operator tokens (every documented spelling)', run=pc.all_pairs('all'), label='bounded'))
     out.append(dict(name='C16 documented synonyms give the same tree (strict)', run=pc.spelling_classes(), label='bounded'))
+    out.append(dict(name='C16 comment bodies (exhaustive over a small alphabet)', run=pc.comment_bodies(4 if tier == 'quick' else 5), label='bounded'))
     n, depth, parts = (300, 4, 4) if tier == 'quick' else (3000, 5, 12)
     for i in range(parts):
         out.append(dict(name=f'C16 random token sequences depth<={depth} part {i}', run=pc.random_sequences(seed * 1000 + i, n, depth), label='bounded'))
